@@ -15,7 +15,7 @@ def nontrivial(line):
 
 def histogram(line):
     f = _fields(line)
-    return ["M=" + f.get("M", "?"), "matrix:" + f.get("mk", "?"), "background:" + f.get("bgk", "?"),
+    return ["M=" + f.get("M", "?"), "abc:" + f.get("abc", "dna"), "ref:" + f.get("ref", "enum"), "matrix:" + f.get("mk", "?"), "background:" + f.get("bgk", "?"),
             "query:" + f.get("qk", "?"), "steps=" + f.get("steps", "?")]
 
 
@@ -32,7 +32,7 @@ SPEC = dict(
     search_n={"quick": 4000, "thorough": 40000},
     nontrivial=nontrivial,
     histogram=histogram,
-    rule="DNA scoring matrices of width M in 2..6 built with ScoringMatrix::new (cells on a fine 1/1024 grid, a coarse 1/4 grid with many ties, a decimal 0.1/0.01 grid, 8% 'cluster' matrices (close top words with rounding digits of opposite classes in high cells and row minima: the shape of the F13 witness), a 0.05 lattice of small rounded weights, or log-odds derived from random counts through CountMatrix::to_freq/to_scoring; wildcard column -inf, rarely finite; 1 matrix in 7 has an uninformative or nearly uninformative position = a row of equal cells), backgrounds uniform / dyadic non-uniform (sometimes with a zero frequency) / decimal [0.3,0.2,0.2,0.3] / ~6% with wildcard mass; per matrix 9-17 query scores: below the minimum, above the maximum, min, max, exactly attainable, attainable+-eps, random. One case = one (matrix, score): every Iteration of approximate_pvalue(s) for 3..6 (thorough 7) refinement steps -- 9..11 steps (granularity down to 1e-11) for one case in ten, one in three for lattice-valued matrices -- or until convergence (range, granularity, converged, score) plus the private state read from the iterator's Debug rendering (permutation, offsets, error_max, int_matrix, min/max rows, all Q-value rows), and pvalue(s) when the iteration converged within the cap; all under catch_unwind. PROPFAIL: extracted checker c12_check (proved equivalent to the five inequalities of the property, C12_check_sound) against the exact tails enumerated over all words in exact dyadic arithmetic (relative tolerance 2^-30 on the reported binary64 sums, widened by (1+|sum b - 1|)^M for backgrounds that are not exactly normalised), for every iteration and for the final pvalue(). A PROPFAIL on a case where the implementation also differs from the model carries the tag model-differs and is never attributed to a known finding. DIFF: bit-exact comparison of the integer geometry / granularity / error_max with the extracted binary64 model, probabilities within 1e-9 relative. Corpus (must pass): the repaired defects F11 (double count), F25 (positive wildcard cell), F12 with -inf wildcard cells. Non-trivial: distinct (matrix, background, score) with the score strictly inside the attainable range of a matrix with >= 3 attainable scores. Theorems (coq/tfm/C12.v, all Qed, no hypothesis left): C12_int_score_error, C12_dist_exact (+C12_recompute_cells), C12_lookup_pvalue_sound, C12_pvalue_step_bounds, C12_pvalue_run_bounds, C12_granularity_decay, C12_pvalue_final_bounds, C12_pvalue_final_error, C12_lookup_pvalue_never_panics_25, C12_perm_ok_Permutation, C12_check_sound, C12_check_tail.",
+    rule="7 matrices in 8: DNA scoring matrices of width M in 2..6; 1 in 8 (kinds prot / dnawide / protgrid / dnagrid): protein matrices (K=21) of width 2..3 with arbitrary cells, DNA of width 7..8, and wide motifs on a 1/4 grid (protein width 4..14, DNA width 9..22) whose exact reference is the convolution conv_dy (equal scores merged; proved to give the same checker verdict as the enumeration of all words: C12_check_conv) -- backgrounds for these: Background::uniform() (for proteins twenty 0.05f32 whose f64 sum exceeds 1), dyadic non-uniform, with wildcard mass; extra queries a few 1e-7..1e-9 below an attainable score (always 9..11 refinement steps) and far below the minimum. The DNA matrices are built with ScoringMatrix::new (cells on a fine 1/1024 grid, a coarse 1/4 grid with many ties, a decimal 0.1/0.01 grid, 8% 'cluster' matrices (close top words with rounding digits of opposite classes in high cells and row minima: the shape of the F13 witness), a 0.05 lattice of small rounded weights, or log-odds derived from random counts through CountMatrix::to_freq/to_scoring; wildcard column -inf, rarely finite; 1 matrix in 7 has an uninformative or nearly uninformative position = a row of equal cells), backgrounds uniform / dyadic non-uniform (sometimes with a zero frequency) / decimal [0.3,0.2,0.2,0.3] / ~6% with wildcard mass; per matrix 9-17 query scores: below the minimum, above the maximum, min, max, exactly attainable, attainable+-eps, random. One case = one (matrix, score): every Iteration of approximate_pvalue(s) for 3..6 (thorough 7) refinement steps -- 9..11 steps (granularity down to 1e-11) for one case in ten, one in three for lattice-valued matrices -- or until convergence (range, granularity, converged, score) plus the private state read from the iterator's Debug rendering (permutation, offsets, error_max, int_matrix, min/max rows, all Q-value rows), and pvalue(s) when the iteration converged within the cap; all under catch_unwind. PROPFAIL: extracted checker c12_check (proved equivalent to the five inequalities of the property, C12_check_sound) against the exact tails enumerated over all words in exact dyadic arithmetic (relative tolerance 2^-30 on the reported binary64 sums, widened by (1+|sum b - 1|)^M for backgrounds that are not exactly normalised), for every iteration and for the final pvalue(). A PROPFAIL on a case where the implementation also differs from the model carries the tag model-differs and is never attributed to a known finding. DIFF: bit-exact comparison of the integer geometry / granularity / error_max with the extracted binary64 model, probabilities within 1e-9 relative. Corpus (must pass): the repaired defects F11 (double count), F25 (positive wildcard cell), F12 with -inf wildcard cells, F34 (range above 1 with the uniform protein background). Non-trivial: distinct (matrix, background, score) with the score strictly inside the attainable range of a matrix with >= 3 attainable scores. Theorems (coq/tfm/C12.v, all Qed, no hypothesis left): C12_int_score_error, C12_dist_exact (+C12_recompute_cells), C12_lookup_pvalue_sound, C12_pvalue_step_bounds, C12_pvalue_run_bounds, C12_granularity_decay, C12_pvalue_final_bounds, C12_pvalue_final_error, C12_lookup_pvalue_never_panics_25, C12_perm_ok_Permutation, C12_check_sound (clause 3 = pmax <= 1 exactly, no tolerance), C12_check_tail, C12_check_conv.",
     trusted_base=['Coq 8.16.1 kernel (coqc); vm_compute only in the non-vacuity Examples and in the refutation witness (coq/tfm/TfmRefute.v); no native_compute; Print Assumptions of every theorem of the property file: closed under the global context', 'Flocq 4.1.0 BinarySingleNaN (binary64 replay instance of the model) through LMBase.IEEE', 'extraction: ExtrOcamlBasic only (nat, Z, positive kept as extracted inductives); OCaml 4.13.1', "hand-written OCaml driver ocaml/tfm/driver.ml (parsing, construction of the checker's rows from the f32 cells, 1e-9 relative comparison of f64 sums, verdicts); the decision PROPFAIL itself is the extracted checker, proved equivalent to the property inequalities (C12_check_sound / C13_check_sound, C12_check_tail)", 'Rust harness harness/src/bin/tfm.rs (generator, catch_unwind, parser of the derived Debug rendering of PvaluesIterator/ScoresIterator used to read the private state)', 'modelled, not verified: lightmotif-tfmpvalue/src/lib.rs itself (hand-written Gallina model TfmModel.v tied by the bit-exact replay of the binary64 instance); IEEE rounding of x/g, of score/g and of the probability sums (the theorems are about the exact-rational instance of the same model text; the slack of one integer unit on either side of the bounds is ~1e9 times the rounding error of the replayed cases); HashMap iteration order (model iterates in key order); the row permutation of TfmPvalue::new (input of the model, validated per case)'],
     assumptions=['theorems: exact rational arithmetic (NumQ instance of the model), M >= 2, K >= 2 cells per row, finite symbol cells, g > 0, symbol frequencies >= 0 summing to 1 and wildcard frequency 0 (no wildcard mass; the table theorem C12_dist_exact itself is proved for any wildcard mass, bg_mass; what is left of finding F12 needs a finite wildcard cell together with wildcard mass), wildcard cells arbitrary (no longer read by the code), perm a permutation of 0..M (Permutation perm (seq 0 M)); results are stated for the matrix as given (Ptail is invariant under the row permutation, TfmPerm.tailS_perm_cells)', "the row permutation of TfmPvalue::new (sort_unstable_by) is an input of the model; the check validates that the implementation's permutation is a decreasing-range order (perm_ok); the theorems hold for every permutation", 'Ok-results only: the theorems speak about steps where the model returns Ok (every Panic site of the model is an observable panic of the implementation and is reported as PROPFAIL by the check)'],
 )
